@@ -309,12 +309,30 @@ def mpair(rng):
         if rng.random() < 0.4:
             b = mmul(b, mpoly(rng, [v[0]], 2, 2) or mconst(1))
         return mmul(G, a), mmul(G, b), G
-    if k < 0.40:
+    if k < 0.38:
+        # primitive, coprime and truly multivariate, leading coefficients survive at 0, but the specialisations at 0 of the
+        # other variables share an INTEGER factor k >= 2 (P(0,x) = k*u(x), Q(0,x) = k*v(x), gcd(u,v) = 1): a constant
+        # univariate gcd other than 1 must not leak into the result (gcd(2x+y+2, 2x+y+4) = 1, not 2)
+        v = rng.sample(range(NV), 2)
+        kk = rng.choice([2, 2, 3, 4, 6])
+        ex = [0] * NV; ex[v[0]] = 1
+        ey = [0] * NV; ey[v[1]] = 1
+        c1 = rng.choice([1, -1, 3, 5]); c2 = c1 + rng.choice([1, 2, -1, 3])
+        a = {tuple(ex): kk, tuple(ey): rng.choice([1, -1]), (0,) * NV: kk * c1}
+        b = {tuple(ex): kk, tuple(ey): rng.choice([1, -1]), (0,) * NV: kk * c2}
+        if rng.random() < 0.5:
+            e2 = [0] * NV; e2[v[0]] = 2
+            a[tuple(e2)] = kk * rng.choice([1, -1, 2]); b[tuple(e2)] = kk * rng.choice([1, 3])
+        if rng.random() < 0.4:
+            h = mpoly(rng, msubset(rng), 1, 2) or mconst(1)
+            return mmul(a, h), mmul(b, h), h
+        return a, b, mconst(1)
+    if k < 0.42:
         # univariate in one variable (shortcut is precise)
         v = [rng.randrange(NV)]
         a, b, g = mpoly(rng, v, 3, 4) or mconst(1), mpoly(rng, v, 3, 4) or mconst(2), mpoly(rng, v, 2, 3) or mconst(1)
         return mmul(a, g), mmul(b, g), g
-    if k < 0.46:
+    if k < 0.48:
         a, b = mpoly(rng, msubset(rng), 2, 4), mpoly(rng, msubset(rng), 2, 4)
         return a, b, mconst(1)
     return mplanted(rng)
